@@ -133,8 +133,16 @@ def _worker(args):
     except common.DriverError as e:
         r = {"fails": [], "diffs": [], "infra": f"driver: {e}"}
     except Exception as e:  # harness bug or unexpected exception of the real code
-        r = {"fails": [], "diffs": [], "infra": "exception: " + "".join(traceback.format_exception_only(type(e), e)).strip()[:300]
-             + " @ " + traceback.format_tb(e.__traceback__)[-1].strip()[:200]}
+        msg = ("".join(traceback.format_exception_only(type(e), e)).strip()[:300]
+               + " @ " + traceback.format_tb(e.__traceback__)[-1].strip()[:200])
+        frames = traceback.extract_tb(e.__traceback__)
+        inner = os.path.realpath(frames[-1].filename) if frames else ""
+        in_repo = inner.startswith(os.path.realpath(os.path.join(common.REPO, "biobalm")))
+        if in_repo and not isinstance(e, (MemoryError, KeyboardInterrupt)):
+            # an API call on a valid input died inside biobalm: no result, hence no property holds for it
+            r = {"fails": [{"kind": "unexpected-exception", "sig": {"type": type(e).__name__}, "detail": msg}], "diffs": []}
+        else:
+            r = {"fails": [], "diffs": [], "infra": "exception: " + msg}
     r.setdefault("fails", [])
     r.setdefault("diffs", [])
     r["case"] = case
